@@ -19,6 +19,7 @@ Atoms: keys / hashes are abstract numbers; their orders are a parameter `o : Ato
 to be lawful total orders (`LawfulAtoms o`) exactly where `Pk: Ord` is.
 -/
 import MsVerif.Lemmas.CmpOrd
+import MsVerif.Lemmas.PolicyOrd
 
 namespace MsVerif.C19
 open MsVerif MsVerif.TreeWalk MsVerif.CmpEq MsVerif.CmpOrd
@@ -183,5 +184,41 @@ the 36 Rust strings -/
 theorem fragRank_faithful :
     FragName.all.all (fun x => FragName.all.all (fun y => compare x.str y.str == natCmp x.rank y.rank))
       = true := by decide +kernel
+
+/-! ## P — `Ord` of concrete and semantic policies (`Eq` / `Hash` are derived = structural) -/
+
+section Policies
+open MsVerif.PolicyOrd
+
+/-- the hand-written `Ord for Policy` (both policy types; `polCmp`, Model/PolicyOrd.lean) is a
+total order whose `Equal` is structural identity — hence consistent with the derived `==` and
+`Hash` — for every lawful order on keys and hashes: locks are compared by consensus value,
+`or` branches weight first, thresholds k first, child lists lexicographically -/
+theorem policy_cmp_total_order (o : AtomOrd) (ho : LawfulAtoms o) :
+    (∀ a b : PPol, polCmp o a b = .eq ↔ a = b) ∧
+    (∀ a b : PPol, polCmp o b a = (polCmp o a b).swap) ∧
+    (∀ a b c : PPol, polCmp o a b = .lt → polCmp o b c = .lt → polCmp o a c = .lt) :=
+  ⟨polCmp_eq_iff o ho, polCmp_swap o ho, polCmp_trans o ho⟩
+
+/-- after the comparison of the variant names the second `match` of `cmp` only sees pairs of
+the same variant: its `unreachable!` arm is never reached -/
+theorem policy_cmp_no_unreachable (a b : PPol) (h : a.vrank = b.vrank) : sameVariant a b = true :=
+  same_rank_same_variant a b h
+
+/-- the rank table is the byte-wise order of the twelve `variant_name()` strings -/
+theorem policy_variant_rank_faithful :
+    let reps : List PPol := [.after 0, .and .nil, .hash .hash160 0, .hash .hash256 0, .key 0, .older 0,
+      .or .nil, .hash .ripemd160 0, .hash .sha256 0, .thresh 1 .nil, .trivial, .unsat]
+    reps.all (fun x => reps.all (fun y => compare x.variantName y.variantName == natCmp x.vrank y.vrank))
+      = true := by decide +kernel
+
+/-- near-twin locks and weights are told apart -/
+example : polCmp natOrd (.older 5) (.older 65541) = .lt
+    ∧ polCmp natOrd (.or (.cons 1 (.key 0) (.cons 2 (.key 1) .nil))) (.or (.cons 2 (.key 0) (.cons 1 (.key 1) .nil))) = .lt
+    ∧ polCmp natOrd (.and (.cons 0 (.key 0) .nil)) (.key 0) = .lt
+    ∧ polCmp natOrd (.thresh 1 (.cons 0 (.key 0) .nil)) (.thresh 1 (.cons 0 (.key 0) (.cons 0 (.key 1) .nil))) = .lt := by
+  decide
+
+end Policies
 
 end MsVerif.C19
